@@ -243,7 +243,11 @@ theorem CInv.condBuild_cb {rest : List Cb} {e0 c : EvId} {s : KState ℚ σ} (hc
     · refine ⟨?_, ?_, ?_, ?_⟩
       · intro x o ho
         by_cases hx : x = c
-        · right; rw [hx]; exact List.mem_cons_self
+        · right
+          rw [hx] at ho ⊢
+          rw [← hr.out, hv] at ho
+          cases ho
+          exact ⟨List.mem_cons_self, v, _, rfl, houtc⟩
         · left; rw [hout x hx, hr.out]; exact ho
       · intro x ho
         by_cases hx : x = c
